@@ -229,8 +229,8 @@ Lemma wf_parts :
   (exists full inn, aget inn full 0 = 0 /\ fwd_valid full code 0 inn = true /\ uses_defined full code 0 inn = true) /\
   (exists lin, bwd_valid code 0 lin = true /\ live_ok num_regs code (bp_live p) 0 lin = true).
 Proof.
-  unfold bc_wf in WF. fold code in WF. fold len in WF.
-  repeat (apply andb_prop in WF; destruct WF as [WF ?]).
+  pose proof WF as W. unfold bc_wf in W. fold code in W. fold len in W.
+  repeat (apply andb_prop in W; destruct W as [W ?]).
   repeat match goal with H : _ && _ = true |- _ => apply andb_prop in H; destruct H end.
   split; [lia|]. split; [lia|]. split; [apply Nat.eqb_eq; assumption|]. split; [assumption|]. split.
   - destruct (fwd_fix _ _ code _) as [inn|]; [|discriminate].
@@ -344,4 +344,18 @@ Proof.
   rewrite !Z.land_spec, Z.lnot_spec, ND by exact T0.
   rewrite (out_of_spec lin pc i s t HS (needed_lin code lin V t s N)), (testbit_reg_mask num_regs t T0 T1 T2). reflexivity.
 Qed.
+
 End Sound.
+
+(** a live mask accepted by [live_regs_ok] names register temporaries only *)
+Theorem live_regs_ok_sound : forall num_regs p, live_regs_ok num_regs p = true -> 0 <= num_regs ->
+  forall pc l t, nth_error (bp_live p) pc = Some l -> Z.testbit l t = true -> 0 <= t < Z.min num_regs 16.
+Proof.
+  intros num_regs p LR NR pc l t HL HT. unfold live_regs_ok in LR.
+  rewrite forallb_forall in LR. specialize (LR l (nth_error_In _ _ HL)).
+  apply andb_prop in LR. destruct LR as [_ LR]. rewrite bset_sub_spec in LR. specialize (LR t HT).
+  unfold reg_mask in LR.
+  destruct (Z.ltb_spec t 0) as [Neg|Pos]; [rewrite Z.testbit_neg_r in HT by exact Neg; discriminate|].
+  destruct (Z.ltb_spec t (Z.min num_regs 16)) as [Lt|Ge]; [lia|].
+  rewrite Z.ones_spec_high in LR by lia. discriminate.
+Qed.
